@@ -22,6 +22,8 @@ CONSTANTS
   WFault = TRUE
   TimeoutCarriesOver = FALSE
   WriteErrKeepsEntry = FALSE
+  AllowFire = TRUE
+  FireRegisters = FALSE
   MaxTry = 2
 INVARIANTS EmitWhenQuiet
 CHECK_DEADLOCK FALSE
